@@ -471,6 +471,15 @@ func haCasesC03(c *kit.Ctx) []*haCase {
 			for k := 0; k < cs.Nodes/2; k++ {
 				cs.Crashes = append(cs.Crashes, haCrashPlan{Node: (i + k) % cs.Nodes, Hook: "quiescent", Nth: 1, FromRound: 1, DownMs: 100000000})
 			}
+		case i%6 == 5:
+			// focused: a lagging node holds the certificate of the next period without its payload and then
+			// receives the payload of the other (period-0) proposal it still tracks (S9)
+			cs = haGenCase(c, 4, i, "safety")
+			cs.Nodes = []int{5, 7}[(i/6)%2]
+			cs.Stake = "equal"
+			cs.Net, cs.Adv, cs.AdvPct, cs.AdvAccts = "S9", "none", 0, 0
+			cs.DelayMaxMs, cs.DropPm, cs.DupPm = 0, 0, 0
+			cs.Crashes, cs.QCrashPm, cs.PrefixRnds = nil, 0, 3
 		default:
 			cs = haGenCase(c, 4, i, "safety")
 		}
@@ -505,6 +514,7 @@ func TestVerifHAC03(t *testing.T) {
 	c.Require("certificates_checked", 100)
 	c.Require("commits_by_digest_only", 1)
 	c.Require("certificates_with_equivocation_pairs", 3)
+	c.Require("s9_other_payload_after_certificate", 2)
 	agg.finish()
 }
 
